@@ -47,6 +47,15 @@ let var_ x = match lst x with
   | _ -> failwith "var"
 let kind_ x = match atom x with "full" -> Full | "instonly" -> InstOnly | s -> failwith ("enc_kind " ^ s)
 
+let mtype_ x = match atom x with "none" -> TNone | "obj" -> TObj | "con" -> TCon | "both" -> TBoth | s -> failwith ("mtype " ^ s)
+let metric_ x = match lst x with
+  | [i; d; r; t] -> { m_id = n_ i; m_dir = bool_ d; m_ref = opt_ bigq_ r; m_ty = opt_ mtype_ t }
+  | _ -> failwith "metric"
+let w_role = function RObj -> A "obj" | RCon -> A "con" | RUnused -> A "unused" | RAmbiguous -> A "ambiguous"
+let role_ x = match atom x with "obj" -> RObj | "con" -> RCon | "unused" -> RUnused | "ambiguous" -> RAmbiguous | s -> failwith s
+let mval_ x = match x with A "nan" -> VNaN | v -> VNum (bigq_ v)
+let w_mval = function VNaN -> A "nan" | VNum q -> w_bigq q
+
 let dispatch (cmd : string) (args : sx list) : sx =
   match cmd, args with
   | "valid_idx_rows", [t; p; rows] ->
@@ -75,6 +84,12 @@ let dispatch (cmd : string) (args : sx list) : sx =
       w_opt (w_opt w_assign)
         (decode_witness (dsg_ g) (list_ var_ e) (kind_ k) (list_ bigq_ x) (list_ bigq_ x') (list_ bool_ act)
            (list_ n_ inst) (list_ (pair_ n_ bigq_) dvv))
+  | "classify_all", [g; ms] -> w_opt (w_list (w_pair w_n w_role)) (classify_all (dsg_ g) (list_ metric_ ms))
+  | "classify_flags", [ms] -> w_list (w_pair w_n w_role) (classify_flags (list_ (pair_ metric_ bool_) ms))
+  | "in_every_arch", [g; n] -> w_opt w_bool (in_every_arch (dsg_ g) (n_ n))
+  | "evaluate", [ms; rs; inst; vals] ->
+      let ((o, c), mv) = evaluate (list_ metric_ ms) (list_ (pair_ n_ role_) rs) (list_ n_ inst) (list_ (pair_ n_ mval_) vals) in
+      L [w_list w_mval o; w_list w_mval c; w_list (w_pair w_n w_mval) mv]
   | _ -> Dispatch2.dispatch cmd args
 
 let () =
